@@ -12,7 +12,12 @@ xsf.py (`init_spectral_lines`), magnetic_ff.py, cromermann.py + xsf/f0_WaasKirf.
    symbol, and f0 of every element and every ion through `Xray.f0`), against the model;
 4. loader differential on generated tables for each of the five loaders;
 5. direct oracle: the translator's reading of the entry that belongs to the atom; form factors
-   against a 50-digit Decimal evaluation of the documented formula.
+   against a 50-digit Decimal evaluation of the documented formula;
+6. `sweep_containers` (real code only): every magnetic `<jn>_Q` and every f0 (Xray.f0, fxrayatq,
+   fxrayatstol, atstol) with Q as C- / Fortran-ordered / transposed / strided 2-D arrays and as
+   uint8 / int8 / int16 / int32 / uint16 arrays and scalars, entry by entry against the float64 1-D call;
+7. a private table that was read, revised by its owner (seeded) and re-initialised with
+   `init(table, reload=True)` of the four per-table loaders: the full sweep again.
 """
 from __future__ import annotations
 
@@ -323,7 +328,8 @@ def oracle_f0(exp: Expect, z, q, vals):
 
 # =========================================================================== sweep
 
-def sweep(run: Run, label, tbl, exp, src, symbols, cromermann):
+def sweep(run: Run, label, tbl, exp, src, symbols, cromermann, extra=None):
+    extra = extra or {}
     obs = observe_table(tbl)
     f0obs = obs_f0(tbl, cromermann)
     lines = anc_lines(src) + ["cov_load", "cr_load", "lines_load", "mag_load", "cm_load"]
@@ -334,11 +340,11 @@ def sweep(run: Run, label, tbl, exp, src, symbols, cromermann):
             lines.append("cm_f0 %s %d %s" % (P.hexs(symbols[z]), q, f2h(Q / (4 * math.pi))))
     rep = run_driver("loader", lines)
     if [r.split()[0] for r in rep[:5]] != ["ok"] * 5:
-        run.disagree("ancillary-loaders", dict(table=label, what="init"), rep[:5], "loads")
+        run.disagree("ancillary-loaders", dict(extra, table=label, what="init"), rep[:5], "loads")
         return
     it = iter(rep[5:])
     for z in sorted(obs):
-        compare_element(run, "ancillary-loaders", z, obs[z], it, dict(table=label))
+        compare_element(run, "ancillary-loaders", z, obs[z], it, dict(extra, table=label))
         o = obs[z]
         for which, has in (("covalent_radius", z in exp.cov or z == 0),
                            ("crystal_structure", z < len(exp.crystal) and exp.crystal[z] is not None),
@@ -348,7 +354,7 @@ def sweep(run: Run, label, tbl, exp, src, symbols, cromermann):
                       sample="%s %s %s" % (label, which, symbols[z]) if z in (25, 26) and which == "magnetic_ff" else None)
         for name, e, g in oracle_element(exp, z, o):
             run.violation("%s of %s is not the table's" % (name, symbols[z]),
-                          dict(table=label, z=z, observable=name, expected=e, got=g), observable=name, z=z)
+                          dict(extra, table=label, z=z, observable=name, expected=e, got=g), observable=name, z=z)
     for (z, q) in sorted(f0obs):
         vals = f0obs[(z, q)]
         for Q, v in zip((0.0, 2.5, 80.0), vals):
@@ -356,12 +362,142 @@ def sweep(run: Run, label, tbl, exp, src, symbols, cromermann):
             ok = (t == ["X"] and isinstance(v, str)) or (t != ["X"] and not isinstance(v, str)
                                                           and (close(h2f(t[0]), v) or (v != v and h2f(t[0]) != h2f(t[0]))))
             if not ok:
-                run.disagree("cromermann", dict(table=label, z=z, q=q, Q=Q, what="f0"), t, P.tok(v))
+                run.disagree("cromermann", dict(extra, table=label, z=z, q=q, Q=Q, what="f0"), t, P.tok(v))
         run.count(key=(label, "f0", z, q), nontrivial=f0_key(symbols[z], q) in exp.f0, tag="sweep:%s:f0" % label)
         for name, e, g in oracle_f0(exp, z, q, vals):
             run.violation("%s of %s is not the table's" % (name, f0_key(symbols[z], q)),
-                          dict(table=label, z=z, q=q, observable=name, expected=e, got=g),
+                          dict(extra, table=label, z=z, q=q, observable=name, expected=e, got=g),
                           observable=name, z=z, q=q)
+
+
+# =========================================================================== Q in other containers
+
+def q_containers(rng):
+    """[(name, array, flat float values in index order)]: the same kind of Q values in [0, 30] carried by
+    2-D arrays of either memory layout and by small-integer arrays (seeded)"""
+    out = []
+    r, c = rng.randint(2, 5), rng.randint(2, 4)
+    base = _np.array([[round(rng.uniform(0.0, 30.0), 3) for _ in range(c)] for _ in range(r)], dtype=float)
+    base[rng.randrange(r), rng.randrange(c)] = rng.choice([0.0, 30.0])
+    out.append(("float64 2-D C-ordered %dx%d" % (r, c), base.copy()))
+    out.append(("float64 2-D Fortran-ordered %dx%d" % (r, c), _np.asfortranarray(base)))
+    out.append(("float64 2-D transposed view %dx%d" % (c, r), base.copy().T))
+    out.append(("float64 2-D every other column", _np.array(_np.hstack([base, base + 0.5]))[:, ::2]))
+    for dt in (_np.uint8, _np.int8, _np.int16, _np.int32, _np.uint16):
+        n = rng.randint(4, 9)
+        vals = [rng.randint(0, 30) for _ in range(n)] + [rng.randint(12, 15), rng.randint(16, 30), 30, 0]
+        rng.shuffle(vals)
+        out.append(("%s 1-D" % _np.dtype(dt).name, _np.array(vals, dtype=dt)))
+    dt = rng.choice([_np.uint8, _np.int8])
+    g = _np.array([[rng.randint(0, 30) for _ in range(3)] for _ in range(2)] + [[17, 29, 12]], dtype=dt)
+    out.append(("%s 2-D Fortran-ordered" % _np.dtype(dt).name, _np.asfortranarray(g)))
+    out.append(("%s scalar" % _np.dtype(dt).name, dt(rng.randint(16, 30))))
+    res = []
+    for name, arr in out:
+        a = _np.asarray(arr)
+        flat = [float(a[idx]) for idx in _np.ndindex(a.shape)]
+        res.append((name, arr, flat))
+    return res
+
+
+def rebuild_container(name, flat, shape):
+    """the array of a recorded violation (replay): same dtype, shape and memory layout"""
+    dt = _np.dtype(name.split()[0])
+    if "scalar" in name:
+        return dt.type(flat[0])
+    a = _np.array(flat, dtype=dt).reshape(shape)
+    if "Fortran" in name:
+        return _np.asfortranarray(a)
+    if "transposed" in name:
+        return _np.array(a.T, order="C").T
+    if "every other" in name:
+        wide = _np.zeros((shape[0], 2 * shape[1]), dtype=dt)
+        wide[:, ::2] = a
+        return wide[:, ::2]
+    return a
+
+
+def container_mismatch(fn, arr, flat, rel=1e-12, abs_=1e-14):
+    """`fn(arr)` against the float64 1-D call `fn(array(flat))`, entry by entry in index order;
+    None or (index, Q, expected, got)"""
+    keep = _np.array(arr, copy=True)
+    ref = fn(_np.array(flat, dtype=float))
+    ref = [float(x) for x in _np.asarray(ref).reshape(-1)]
+    got = _np.asarray(fn(arr))
+    a = _np.asarray(arr)
+    if not _np.array_equal(_np.asarray(arr), keep):
+        return ("argument", None, "unchanged", "modified")
+    if got.shape != a.shape:
+        return ("shape", None, repr(a.shape), repr(got.shape))
+    for k, idx in enumerate(_np.ndindex(a.shape)):
+        g, e = float(got[idx]), ref[k]
+        if not (close(e, g, rel=rel, abs_=abs_) or (e != e and g != g)):
+            return (list(idx), flat[k], e, g)
+    return None
+
+
+def sweep_containers(run: Run, label, tbl, exp, symbols, cromermann):
+    """real code only: a form factor is a function of the Q values, whatever array carries them – every
+    magnetic <jn>_Q and every f0 evaluated with Q as C- / Fortran-ordered / transposed 2-D arrays and as
+    small-integer arrays agrees entry by entry with the float64 1-D call (which the sweep checks against the
+    Decimal evaluation of the documented formula)"""
+    conts = q_containers(run.rng)
+
+    def judge(what, fn, inp, only_float=False, **keys):
+        for name, arr, flat in conts:
+            if only_float and _np.asarray(arr).dtype.kind != "f":
+                continue
+            try:
+                bad = container_mismatch(fn, arr, flat)
+            except Exception as e:  # noqa
+                bad = ("call", None, "values", "X:" + type(e).__name__)
+            if bad is not None:
+                idx, Q, e, g = bad
+                run.violation("%s with Q in a %s array differs from the float64 1-D call at index %s (Q=%s)"
+                              % (what, name, idx, Q),
+                              dict(inp, table=label, kind="container", container=name, Q=flat, index=idx,
+                                   shape=list(_np.asarray(arr).shape),
+                                   expected=P.tok(e) if not isinstance(e, str) else e,
+                                   got=P.tok(g) if not isinstance(g, str) else g),
+                              observable="Q container", **keys)
+                return
+
+    for el in tbl:
+        ff = P.observe(lambda: el.magnetic_ff)
+        if isinstance(ff, str) or ff is None:
+            continue
+        for q in sorted(ff):
+            rec = ff[q]
+            for jn in JNS + ["M"]:
+                co = P.observe(lambda: getattr(rec, jn))
+                if isinstance(co, str) or len(co) != 7:
+                    continue
+                run.count(key=(label, "container", "mag", el.number, q, jn), nontrivial=True, tag="containers:magnetic_ff")
+                judge("magnetic_ff[%d].%s_Q of %s" % (q, jn, el.symbol), getattr(rec, jn + "_Q"),
+                      dict(z=el.number, q=q, jn=jn), z=el.number)
+        # the same through the ion
+        q = sorted(ff)[-1]
+        ion = P.observe(lambda: el.ion[q]) if q in el.ions else "X"
+        if not isinstance(ion, str) and hasattr(ff[q], "j0"):
+            judge("ion.magnetic_ff[%d].M_Q of %s" % (q, el.symbol), lambda Q: ion.magnetic_ff[ion.charge].M_Q(Q),
+                  dict(z=el.number, q=q, jn="M", route="ion"), z=el.number)
+    for el in tbl:
+        for q in (0,) + tuple(el.ions):
+            if f0_key(symbols[el.number], q) not in exp.f0:
+                continue
+            atom = el if q == 0 else el.ion[q]
+            run.count(key=(label, "container", "f0", el.number, q), nontrivial=True, tag="containers:f0")
+            judge("f0 of %s" % f0_key(symbols[el.number], q), lambda Q: atom.xray.f0(Q),
+                  dict(z=el.number, q=q, what="Xray.f0"), z=el.number, q=q)
+    if label == "public":
+        for n in sorted(exp.f0):
+            run.count(key=("container", "cm", n), nontrivial=True, tag="containers:cromermann")
+            judge("fxrayatq(%r, Q)" % n, lambda Q: cromermann.fxrayatq(n, Q), dict(symbol=n, what="fxrayatq"), symbol=n)
+            # sin(theta)/lambda = Q/8 here (any value below the table's limit of 6 will do)
+            judge("fxrayatstol(%r, Q/8)" % n, lambda Q: cromermann.fxrayatstol(n, Q / 8.0),
+                  dict(symbol=n, what="fxrayatstol"), only_float=True, symbol=n)
+            judge("getCMformula(%r).atstol(Q/8)" % n, lambda Q: cromermann.getCMformula(n).atstol(Q / 8.0),
+                  dict(symbol=n, what="atstol"), only_float=True, symbol=n)
 
 
 def numeric_charges(run: Run, exp, symbols, cromermann, mods):
@@ -837,6 +973,51 @@ def private_table(mods):
     return t
 
 
+def reloaded_table(mods, seed):
+    """a private table that was initialised, read, revised by its owner (seeded: entries of the four
+    per-table ancillary tables changed, magnetic charge states and coefficient sets removed) and then
+    re-initialised the documented way, init(table, reload=True)"""
+    import random
+    covalent_radius, crystal_structure, xsf, magnetic_ff, cromermann, core = mods
+    rng = random.Random(seed)
+    t = private_table(mods)
+    observe_table(t)
+    for el in t:
+        if el.__dict__.get("covalent_radius") is not None and rng.random() < 0.5:
+            el.covalent_radius = round(rng.uniform(0.2, 3.0), 2)
+            if "covalent_radius_uncertainty" in el.__dict__:      # (the neutron has a radius but no such entry)
+                el.covalent_radius_uncertainty = rng.choice([0.0, 0.07, None])
+        c = el.__dict__.get("crystal_structure", "absent")
+        if c != "absent" and rng.random() < 0.5:
+            if isinstance(c, dict) and rng.random() < 0.6:
+                c["symmetry"] = "revised"
+                c["a"] = 9.999
+            else:
+                el.crystal_structure = rng.choice([None, {"symmetry": "fcc", "a": 1.234}])
+        if "K_alpha" in el.__dict__ and rng.random() < 0.5:
+            el.K_alpha, el.K_beta1 = round(rng.uniform(0.1, 9), 4), round(rng.uniform(0.1, 9), 4)
+        ff = el.__dict__.get("magnetic_ff")
+        if ff:
+            for q in sorted(ff):
+                r = rng.random()
+                if r < 0.25:
+                    del ff[q]
+                elif r < 0.6:
+                    for jn in JNS:
+                        if jn in ff[q].__dict__ and rng.random() < 0.5:
+                            if rng.random() < 0.3:
+                                delattr(ff[q], jn)
+                            else:
+                                setattr(ff[q], jn, tuple(round(rng.uniform(-1, 30), 4) for _ in range(7)))
+            if rng.random() < 0.1:
+                del el.magnetic_ff
+    covalent_radius.init(t, reload=True)
+    crystal_structure.init(t, reload=True)
+    xsf.init_spectral_lines(t)
+    magnetic_ff.init(t, reload=True)
+    return t
+
+
 def run(run: Run) -> int:
     pt = import_repo()
     from periodictable import covalent_radius, crystal_structure, xsf, magnetic_ff, cromermann, core
@@ -857,9 +1038,21 @@ def run(run: Run) -> int:
     if not rep or not rep[0].startswith("ok"):
         run.disagree("translator-vs-model-parse", dict(kind="selfcheck"), rep[:1], "generated rows")
     sweep(run, "public", pt.elements, exp, src, symbols, cromermann)
+    sweep_containers(run, "public", pt.elements, exp, symbols, cromermann)
     priv = private_table(mods)
     sweep(run, "private", priv, exp, src, symbols, cromermann)
+    sweep_containers(run, "private", priv, exp, symbols, cromermann)
     P.drop_private(priv)
+    # a private table that was read, revised by its owner and re-initialised with reload=True
+    seed = run.rng.randrange(1 << 30)
+    try:
+        priv = reloaded_table(mods, seed)
+    except Exception as e:  # noqa
+        run.violation("init(table, reload=True) of a revised private table raises: %s: %s" % (type(e).__name__, e),
+                      dict(kind="init", table="private-reloaded", custom_seed=seed), observable="init")
+    else:
+        sweep(run, "private-reloaded", priv, exp, src, symbols, cromermann, extra=dict(custom_seed=seed))
+        P.drop_private(priv)
     check_cm_entries(run, exp, src, cromermann)
     numeric_charges(run, exp, symbols, cromermann, mods)
     private_first_probe(run, exp, symbols)
@@ -889,6 +1082,27 @@ def replay(data) -> int:
         if inp.get("kind") == "selfcheck":
             print(run_driver("loader", anc_lines(src) + ["anc_selfcheck"]))
             continue
+        if inp.get("kind") == "container":
+            tbl = pt.elements if inp.get("table") == "public" else private_table(mods) if inp.get("table") == "private" \
+                else reloaded_table(mods, inp["custom_seed"])
+            arr = rebuild_container(inp["container"], inp["Q"], inp["shape"])
+            if "symbol" in inp:
+                n = inp["symbol"]
+                fn = {"fxrayatq": lambda Q: cromermann.fxrayatq(n, Q),
+                      "fxrayatstol": lambda Q: cromermann.fxrayatstol(n, Q / 8.0),
+                      "atstol": lambda Q: cromermann.getCMformula(n).atstol(Q / 8.0)}[inp["what"]]
+            elif "jn" in inp:
+                rec = tbl[inp["z"]].magnetic_ff[inp["q"]]
+                fn = getattr(rec, inp["jn"] + "_Q")
+            else:
+                atom = tbl[inp["z"]] if not inp["q"] else tbl[inp["z"]].ion[inp["q"]]
+                fn = lambda Q: atom.xray.f0(Q)  # noqa
+            print(" Q =", repr(arr), "flags:", "scalar" if not hasattr(arr, "flags") or arr.ndim == 0 else
+                  "C" if arr.flags.c_contiguous else "F" if arr.flags.f_contiguous else "strided")
+            print(" real code, this array :", P.observe(lambda: _np.asarray(fn(arr)).tolist()))
+            print(" real code, float64 1-D:", P.observe(lambda: _np.asarray(fn(_np.array(inp["Q"], dtype=float))).tolist()))
+            print(" mismatch:", P.observe(lambda: container_mismatch(fn, arr, inp["Q"])))
+            continue
         if inp.get("kind") in ("numeric-charge", "private-first"):
             r = Run("C20", "quick", 0)
             if inp["kind"] == "numeric-charge":
@@ -899,7 +1113,8 @@ def replay(data) -> int:
                 print(" real code + oracle:", x["what"], x["input"].get("expected"), x["input"].get("got"))
             continue
         if "z" in inp:
-            tbl = pt.elements if inp.get("table") != "private" else private_table(mods)
+            tbl = pt.elements if inp.get("table") == "public" or "table" not in inp else \
+                reloaded_table(mods, inp["custom_seed"]) if inp.get("table") == "private-reloaded" else private_table(mods)
             z = inp["z"]
             o = obs_element(tbl[z])
             print(" real code :", {k: (x if k != "mag" else "…") for k, x in o.items()})
